@@ -39,4 +39,45 @@ Theorem same_engine_flagged_ok :
   w_last s1_history = Some (Some (888378, 0), false) /\
   w_clean s1_history 1 = Some (888378, 0) /\
   In (ENeed 1 Forced None) (firstn 12 (st_log (h_st (w_run s1_history)))).
-Proof. repeat split; vm_compute; try reflexivity. right. right. right. right. right. right. right. right. right. right. now left. Qed.
+Proof. repeat split; vm_compute; try reflexivity. repeat (first [left; reflexivity | right]). Qed.
+
+(* ---------- scenario 2: the discovered-dependency window (flags present) ---------- *)
+
+(* R = f(A; D) with A = 2 requested and D = 5 discovered.  Build; A and D change; the next build is cancelled after 15
+   events: A rebuilt, R re-run and COMPLETED with the new D (persisted, builtAt = this epoch), D itself not yet
+   brought up to date.  Then D returns to its earlier stamp. *)
+Definition s2_rule_R : rule := mkRule 0 false [2] [] [] None [5].
+Definition s2_prefix : list cop :=
+  [CPlain (ORule 1 s2_rule_R); CPlain (ORule 2 r_input); CPlain (ORule 5 r_input);
+   CPlain (OSet 2 5); CPlain (OSet 5 7); CPlain (ORestart true); CPlain (OBuild 1);
+   CPlain (OSet 2 6); CPlain (OSet 5 8)].
+Definition s2_cancelled : list cop := s2_prefix ++ [CBuildCancel 1 15; CPlain (OSet 5 7)].
+Definition s2_same_engine : list cop := s2_cancelled ++ [CPlain (OBuild 1)].
+Definition s2_new_engine : list cop := s2_cancelled ++ [CPlain (ORestart true); CPlain (OBuild 1)].
+
+Theorem discovered_window_refuted :
+  w_last (s2_prefix ++ [CBuildCancel 1 15]) = Some (None, true) /\
+  st_flag (h_st (w_run (s2_prefix ++ [CBuildCancel 1 15]))) = [] /\
+  w_last s2_same_engine = Some (Some (462296, 0), false) /\
+  w_clean s2_same_engine 1 = Some (464033, 0) /\
+  w_last s2_new_engine = Some (Some (462296, 0), false) /\
+  w_clean s2_new_engine 1 = Some (464033, 0).
+Proof. repeat split; vm_compute; reflexivity. Qed.
+
+(* the excluding hypothesis fails in this witness: at the abort, R has completed and its discovered input 5 is not
+   complete in the epoch *)
+Definition s2_before : state := emit (h_st (w_run s2_prefix)) (EBuildStart 1).
+Definition s2_rules : key -> rule := rules_of (h_rules (w_run s2_prefix)).
+Definition s2_env : key -> N := env_of (h_env (w_run s2_prefix)).
+Definition s2_abort : state :=
+  state_of (ensure_c s2_rules s2_env mixF ord_id 15 (length (st_log s2_before)) w_fuel [] (bump_epoch s2_before) 1).
+
+Theorem discovered_window_pending :
+  ensure_c s2_rules s2_env mixF ord_id 15 (length (st_log s2_before)) w_fuel [] (bump_epoch s2_before) 1 = Cycle s2_abort [] /\
+  ~ no_pending_discovered s2_rules s2_abort (length (st_log s2_before)).
+Proof.
+  split; [vm_compute; reflexivity|]. intros H.
+  assert (Hin : In (EComplete 1 (462296, 0)) (build_log s2_abort (length (st_log s2_before)))).
+  { vm_compute. now left. }
+  specialize (H 1 (462296, 0) Hin 5). vm_compute in H. assert (C : 1 = 2) by (apply H; now left). discriminate C.
+Qed.
